@@ -64,9 +64,15 @@ fn poll_write_call(w: &mut AsyncWriter<ScriptSink>, it: &Item, ch: &Shared, drop
     macro_rules! drive { ($fut:expr) => {{
         let mut fut = Box::pin($fut);
         loop {
+            let pendings_before = st.borrow().pendings;
             match fut.as_mut().poll(&mut cx) {
                 Poll::Ready(r) => return Done::Completed(r),
                 Poll::Pending => {
+                    // a Pending the sink did not cause: the caller may drop the future there as well (see aread.rs)
+                    if st.borrow().pendings == pendings_before && crate::sched::spontaneous_drop() {
+                        { let mut s = st.borrow_mut(); if s.log.len() < 64 { s.log.push("DROP-write(at a Pending of the writer's own)".into()) } }
+                        return Done::Dropped
+                    }
                     if *drops_left > 0 && ch.borrow_mut().choose(2) == 1 {
                         *drops_left -= 1;
                         { let mut s = st.borrow_mut(); if s.log.len() < 64 { s.log.push("DROP-write".into()) } }
@@ -96,10 +102,15 @@ fn sync_to_completion(w: &mut AsyncWriter<ScriptSink>, ch: &Shared, drops_left: 
         if guard > 100_000 { return Err(Fail::new("sync-does-not-finish", "sync() did not complete".to_string())) }
         let mut fut = Box::pin(w.sync());
         loop {
+            let pendings_before = st.borrow().pendings;
             match fut.as_mut().poll(&mut cx) {
                 Poll::Ready(Ok(())) => return Ok(errs),
                 Poll::Ready(Err(e)) => { errs.push(e); continue 'outer }
                 Poll::Pending => {
+                    if st.borrow().pendings == pendings_before && crate::sched::spontaneous_drop() {
+                        { let mut s = st.borrow_mut(); if s.log.len() < 64 { s.log.push("DROP-sync(at a Pending of the writer's own)".into()) } }
+                        continue 'outer
+                    }
                     if *drops_left > 0 && ch.borrow_mut().choose(2) == 1 {
                         *drops_left -= 1;
                         { let mut s = st.borrow_mut(); if s.log.len() < 64 { s.log.push("DROP-sync".into()) } }
@@ -119,12 +130,19 @@ pub struct RunInfo { pub cancelled_writes: usize, pub partials: usize, pub pendi
 fn run_schedule(items: &[Item], max_len: u32, ch: Shared, b: Bounds, idle_syncs: &[bool]) -> Result<RunInfo, Fail> {
     let st = Rc::new(RefCell::new(SinkState::default()));
     let sink = ScriptSink { st: st.clone(), ch: ch.clone(), b };
+    crate::sched::reset_spontaneous();
     let mut w = match crate::sched::take_prebuf() { Some(b) => AsyncWriter::with_buffer(sink, b), None => AsyncWriter::new(sink) };
     w.set_max_len(max_len);
     let mut drops_left = b.drops;
     let mut expected: Vec<u8> = Vec::new();
     let mut cancelled = 0;
     let describe = |st: &Rc<RefCell<SinkState>>| -> String { format!("schedule [{}]", st.borrow().log.join(" ")) };
+    // a sync before anything was written (the cancel-safe calling pattern starts every write with one): the writer is idle,
+    // whatever buffer it was constructed with
+    if crate::sched::take_first_sync() {
+        let errs = sync_to_completion(&mut w, &ch, &mut drops_left, &st)?;
+        if !errs.is_empty() || st.borrow().calls != 0 { return Err(Fail::new("idle-sync-writes", format!("sync() on a freshly constructed writer called the sink (received {}); {}", short_hex(&st.borrow().received), describe(&st)))) }
+    }
     for (i, it) in items.iter().enumerate() {
         let zeros_before = st.borrow().zeros;
         let errors_before = st.borrow().errors;
@@ -208,6 +226,7 @@ fn exhaustive(i: u64, st: &mut Stats, b: Bounds, cap: u64) -> CaseResult {
     crate::sched::set_err_kind(crate::sched::ERR_KINDS[[0usize, 5, 2][(i as usize / split_count()) % 3]]);
     let mut nontrivial = 0u64;
     let (count, done) = dfs(&fixed, cap, |ch| {
+        crate::sched::set_first_sync(idle.first().copied().unwrap_or(false));
         let info = run_schedule(items, *max_len, ch, b, idle)?;
         if info.cancelled_writes > 0 || info.partials > 0 { nontrivial += 1 }
         Ok(())
@@ -241,6 +260,9 @@ fn random_walk(g: &mut Gen, st: &mut Stats) -> CaseResult {
     st.class(&format!("walk/AsyncWriter::{}", ctor));
     let kind = *g.pick(&crate::sched::ERR_KINDS);
     crate::sched::set_err_kind(kind);
+    let first_sync = g.bool();
+    crate::sched::set_first_sync(first_sync);
+    if first_sync { st.class("walk/sync before the first write") }
     let info = run_schedule(&items, max_len, ch, b, &idle)?;
     if info.cancelled_writes > 0 || info.partials > 0 { st.nontrivial(hash_of(&(format!("{:?}", items).len(), info.partials, info.pendings, info.cancelled_writes, info.errors, info.zeros))) }
     st.class(if info.cancelled_writes > 0 { "walk/cancelled-write-resumed-by-sync" } else if info.partials > 0 { "walk/short-writes" } else { "walk/straight" });
